@@ -85,6 +85,16 @@ def gen_script(rng: Rng, tag: str) -> dict:
                 "",
             ]
             mids.append(mid)
+    # a helper with several attribute parameters (attribute order / defaults reach the FunctionProto)
+    attr_helper = None
+    if rng.chance(0.3):
+        anames = rng.sample(["alpha", "gamma", "beta", "scale_f", "eps", "bias_f", "k_attr"], rng.randint(2, 4))
+        attr_helper = (f"attrs_{tag}", anames)
+        sig = ", ".join(f"{a}: float = {rng.choice(['0.5', '1.5', '2.0', '0.125'])}" for a in anames)
+        expr = "p"
+        for a in anames:
+            expr = f"op.Add(op.Mul({expr}, {a}), {a})" if rng.chance(0.5) else f"op.Mul({expr}, {a})"
+        lines += ["@script()", f"def attrs_{tag}(p: FLOAT['N'], {sig}) -> FLOAT['N']:", f"    return {expr}", ""]
     dec = "@DEC" if rng.chance(0.3) else "@script()"
     fname = f"f_{tag}"
     body: list[str] = []
@@ -96,6 +106,28 @@ def gen_script(rng: Rng, tag: str) -> dict:
     for j, mid in enumerate(mids):
         tgt = vs[j % len(vs)]
         body.append(f"{ind}{tgt} = {mid}({tgt}, {rng.choice(['x', 'y'])})")
+    if attr_helper is not None:
+        hname, anames = attr_helper
+        given = rng.sample(anames, rng.randint(0, len(anames)))
+        rng.shuffle(given)
+        kw = "".join(f", {a}={rng.choice(['0.25', '3.0', '1.0'])}" for a in given)
+        body.append(f"{ind}{vs[-1]} = {hname}({vs[-1]}{kw})")
+    # a nested @graph() function used as a Loop body, capturing several outer-scope variables
+    if rng.chance(0.3):
+        caps = rng.sample(vs + ["x", "y"], min(len(vs) + 2, rng.randint(2, 5)))
+        rng.shuffle(caps)
+        acc = "st_in"
+        for c in caps:
+            acc = rng.choice(["op.Add({0}, {1})", "op.Mul({0}, {1})", "op.Sub({0}, {1})"]).format(acc, c)
+        body += [
+            f"{ind}@graph()",
+            f"{ind}def body_{tag}(it: INT64, cnd: BOOL, st_in: FLOAT['N']):",
+            f"{ind * 2}cnd_out = op.Identity(cnd)",
+            f"{ind * 2}st_out = {acc}",
+            f"{ind * 2}return cnd_out, st_out",
+            f"{ind}trip_{tag} = op.Constant(value=make_tensor('trip', TensorProto.INT64, [], [2]))",
+            f"{ind}{vs[0]} = op.Loop(trip_{tag}, None, {vs[0]}, body=body_{tag})",
+        ]
 
     def block_assign(names: list[str], depth_ind: str, avail: list[str]) -> list[str]:
         out = []
